@@ -432,9 +432,175 @@ fn c04_case(ctx: &mut Ctx, rng: &mut Rng, i: u64) {
     reassembly(ctx, "C04", &cfg2, kind, &x, complete && x.child_done());
 }
 
+// ---------------------------------------------------------------- the cfg(windows) communicator, executed on Linux
+
+/// One exchange through the crate's thread-based (Windows) RawCommunicator, extracted verbatim at build time
+/// (build.rs) and run here over real pipes to a real scripted child started with the unix Popen.
+/// `limits`: size limit per successive read (None = unlimited).  Returns the reads and the child's report.
+pub fn win_exchange(ctx: &mut Ctx, seed: u64, script: &str, input: Option<Vec<u8>>, out_piped: bool, err_piped: bool, limits: &[Option<usize>]) -> Option<(Vec<(bool, Option<Vec<u8>>, Option<Vec<u8>>, Option<usize>)>, Vec<String>)> {
+    use crate::win_comm::raw::RawCommunicator;
+    use subprocess::{Popen, PopenConfig, Redirection};
+    run::begin_case();
+    let dir = ctx.scratch("win");
+    let rep = dir.join("rep");
+    let argv: Vec<std::ffi::OsString> = vec![ctx.vchild.clone().into(), "io".into(), seed.to_string().into(), script.into(), rep.clone().into()];
+    let null = || Redirection::File(std::fs::OpenOptions::new().write(true).open("/dev/null").unwrap());
+    let config = PopenConfig {
+        stdin: if input.is_some() { Redirection::Pipe } else { Redirection::None },
+        stdout: if out_piped { Redirection::Pipe } else { null() },
+        stderr: if err_piped { Redirection::Pipe } else { null() },
+        ..Default::default()
+    };
+    let mut p = match Popen::create(&argv, config) {
+        Ok(p) => p,
+        Err(_) => {
+            run::end_case();
+            return None;
+        }
+    };
+    let mut rc = RawCommunicator::new(p.stdin.take(), p.stdout.take(), p.stderr.take(), input);
+    let mut reads = vec![];
+    let m = run::monitored(|| {
+        for lim in limits {
+            let (err, (o, e)) = rc.read(None, *lim);
+            let empty = o.as_ref().map(|v| v.is_empty()).unwrap_or(true) && e.as_ref().map(|v| v.is_empty()).unwrap_or(true);
+            let ok = err.is_none();
+            reads.push((ok, o, e, *lim));
+            if !ok || empty {
+                break;
+            }
+        }
+    });
+    if m.panic.is_some() || m.hard_timeout {
+        if let Some(pm) = &m.panic {
+            ctx.violation("C03/win-variant/panic", "the thread-based communicator panicked", J::s(pm));
+        }
+        run::end_case();
+        return None;
+    }
+    drop(rc);
+    let _ = crate::ilog::quiet(|| {
+        for _ in 0..300 {
+            if p.poll().is_some() {
+                break;
+            }
+            std::thread::sleep(Duration::from_millis(1));
+        }
+    });
+    let report = crate::kid::read_lines(&rep);
+    if let Some(pid) = p.pid() {
+        crate::spawn::kill_now(pid as i32);
+    }
+    drop(p);
+    run::end_case();
+    Some((reads, report))
+}
+
+fn wrote(report: &[String], s: u8) -> usize {
+    let mut n = 0;
+    for l in report {
+        let p: Vec<&str> = l.split(' ').collect();
+        if p[0] == "w" && p.len() >= 3 && p[1] == s.to_string() {
+            n = n.max(p[2].parse().unwrap_or(0));
+        }
+    }
+    n
+}
+
+fn c03_win_case(ctx: &mut Ctx, rng: &mut Rng, _i: u64) {
+    if !crate::win_comm::EXTRACTED {
+        ctx.inconclusive("extraction of the cfg(windows) communicator failed", J::Null);
+        return;
+    }
+    let seed = rng.next() >> 1;
+    let (n1, n2) = (rng.range(0, 60_000), rng.range(0, 20_000));
+    let mut ops = vec![];
+    let (mut l1, mut l2) = (n1, n2);
+    while l1 > 0 || l2 > 0 {
+        if l1 > 0 && (l2 == 0 || rng.chance(500)) {
+            let n = rng.range(1, l1.min(9000));
+            ops.push(format!("w1:{}:{}", n, comm::chunk(rng)));
+            l1 -= n;
+        } else {
+            let n = rng.range(1, l2.min(9000));
+            ops.push(format!("w2:{}:{}", n, comm::chunk(rng)));
+            l2 -= n;
+        }
+        if rng.chance(150) {
+            ops.push(format!("s{}", rng.range(1, 2)));
+        }
+    }
+    let with_input = rng.chance(400);
+    if with_input {
+        ops.push("R".into());
+    }
+    ops.push("x0".into());
+    let script = ops.join(",");
+    let choices = [1usize, 2, 7, 100, 4095, 4096, 4097, 5000, 1 << 20];
+    let tiny = n1 + n2 < 3000;
+    let mut limits: Vec<Option<usize>> = vec![];
+    let mut budget = 0u64;
+    while budget < n1 + n2 + 10 && limits.len() < 30_000 {
+        let s = if tiny { *rng.pick(&choices) } else { *rng.pick(&choices[3..]) };
+        budget += s as u64;
+        limits.push(Some(s));
+    }
+    for _ in 0..64 {
+        limits.push(Some(1 << 22));
+    }
+    let input = if with_input { Some(comm::input_for(seed, rng.range(0, 200_000) as usize)) } else { None };
+    let (reads, report) = match win_exchange(ctx, seed, &script, input.clone(), true, true, &limits) {
+        Some(x) => x,
+        None => return,
+    };
+    ctx.count("win_variant_chains", 1);
+    ctx.count("win_variant_reads", reads.len() as i64);
+    let w = J::obj().set("script", J::s(&script)).set("reads", J::Arr(reads.iter().take(30).map(|r| J::s(&format!("ok={} out={:?} err={:?} limit={:?}", r.0, r.1.as_ref().map(|v| v.len()), r.2.as_ref().map(|v| v.len()), r.3))).collect())).set("child_report", J::arr_s(&report));
+    let mut got1 = vec![];
+    let mut got2 = vec![];
+    for (j, (ok, o, e, lim)) in reads.iter().enumerate() {
+        let (a, b) = (o.as_ref().map(|v| v.len()).unwrap_or(0), e.as_ref().map(|v| v.len()).unwrap_or(0));
+        if let Some(l) = lim {
+            if a + b > *l {
+                ctx.violation("C03/win-variant/limit-exceeded", &format!("thread-based communicator: read #{} returned {}+{} bytes with a limit of {}", j, a, b, l), w);
+                return;
+            }
+        }
+        if !ok {
+            ctx.violation("C03/win-variant/error", &format!("thread-based communicator: read #{} failed", j), w);
+            return;
+        }
+        got1.extend_from_slice(o.as_deref().unwrap_or(&[]));
+        got2.extend_from_slice(e.as_deref().unwrap_or(&[]));
+    }
+    let done = report.iter().any(|l| l == "done" || l.starts_with("exit "));
+    let last_empty = reads.last().map(|r| r.1.as_ref().map(|v| v.is_empty()).unwrap_or(true) && r.2.as_ref().map(|v| v.is_empty()).unwrap_or(true)).unwrap_or(false);
+    if last_empty && done {
+        let (e1, e2) = (pat_vec(seed, 1, 0, wrote(&report, 1)), pat_vec(seed, 2, 0, wrote(&report, 2)));
+        if got1 != e1 || got2 != e2 {
+            let kind = if got1.len() < e1.len() || got2.len() < e2.len() { "lost-or-early-eof" } else { "repeated-or-corrupted" };
+            ctx.violation(&format!("C03/win-variant/reassembly/{}", kind), &format!("thread-based communicator: pieces add up to {}+{} bytes, the child wrote {}+{}", got1.len(), got2.len(), e1.len(), e2.len()), w);
+            return;
+        }
+        ctx.count("win_variant_bytes_reassembled", (got1.len() + got2.len()) as i64);
+        if let Some(inp) = &input {
+            if let Some(l) = report.iter().rev().find(|l| l.starts_with("in ")) {
+                let p: Vec<&str> = l.split(' ').collect();
+                let (len, h): (u64, u64) = (p[1].parse().unwrap_or(0), p[2].parse().unwrap_or(0));
+                if len != inp.len() as u64 || h != comm::hash(inp) {
+                    ctx.violation("C03/win-variant/input", "thread-based communicator: the child did not receive the input exactly once", w);
+                }
+            }
+        }
+    }
+    ctx.distinct(&format!("win|{}|{}|{}", n1 / 5000, n2 / 5000, with_input));
+}
+
 pub fn run_c03(ctx: &mut Ctx) {
     let n = ctx.n(1600, 10_000);
     ctx.family("chains", n, c03_case);
+    let nw = ctx.n(240, 3000);
+    ctx.family("windows-variant", nw, c03_win_case);
 }
 
 pub fn run_c04(ctx: &mut Ctx) {
